@@ -184,7 +184,7 @@ impl Prop for C17 {
     }
 
     fn runs(tier: Tier) -> u64 {
-        tier.pick(20_000, 1_500_000)
+        tier.pick(60_000, 3_000_000)
     }
 
     fn generate(r: &mut Rng, tier: Tier, _idx: u64) -> Scn {
